@@ -208,6 +208,32 @@ def scalar_weight_cases(rep: Report, rng: Rng):
                               {"kind": "scalar-weight", "plan": plan, "weight": w, "n": n, "reps": reps, "got": got, "want": want})
 
 
+def lowp_case(avg, dtname: str, n: int, seed: int):
+    """one update of MulticlassAccuracy(k=2) with n half-precision score rows (a 3-level grid, exact in every float dtype): the hit
+    counters must hold exactly what the same scores give in float32 — a count kept in the dtype of the scores stops being exact at
+    2048 (float16) / 256 (bfloat16).  returns (got, want) as lists"""
+    import torcheval.metrics as M
+    g = torch.Generator().manual_seed(seed)
+    C = 3
+    x = torch.randint(0, 3, (n, C), generator=g).to(torch.float32) / 2
+    y = torch.randint(0, C, (n,), generator=g)
+    ref = M.MulticlassAccuracy(num_classes=C, k=2, average=avg); ref.update(x, y)
+    m = M.MulticlassAccuracy(num_classes=C, k=2, average=avg); m.update(x.to(getattr(torch, dtname)), y)
+    return m.num_correct.to(torch.float64).reshape(-1).tolist(), ref.num_correct.to(torch.float64).reshape(-1).tolist()
+
+
+def lowp_count_cases(rep: Report, rng: Rng):
+    for avg in ("micro", "macro"):
+        for dtname, n in (("float16", 9000), ("bfloat16", 1500)):
+            seed = rng.randrange(1 << 30)
+            got, want = lowp_case(avg, dtname, n, seed)
+            rep.case(nontrivial_key=("lowp-scores", avg, dtname, n, seed)); rep.count("lowp-scores:cases")
+            if got != want:
+                rep.violation(f"C19|MulticlassAccuracy|num_correct|{dtname}-scores-counted-in-the-score-dtype",
+                              f"MulticlassAccuracy(k=2, average={avg}).num_correct after one update of {n} {dtname} score rows is {got} instead of {want}",
+                              {"kind": "lowp-scores", "average": avg, "dtype": dtname, "n": n, "seed": seed, "got": got, "want": want})
+
+
 def sweep(rep, rng, reps, deadline):
     for spec in SPECS:
         if not spec.count_states:
@@ -224,6 +250,7 @@ def sweep(rep, rng, reps, deadline):
 def run(rep: Report):
     big_weight_cases(rep, Rng(rep.seed * 1000003 + 1919))
     scalar_weight_cases(rep, Rng(rep.seed * 1000003 + 1920))
+    lowp_count_cases(rep, Rng(rep.seed * 1000003 + 1921))
     sweep(rep, Rng(rep.seed * 1000003 + 19), 3 if rep.tier == "quick" else 8, time.time() + budget(rep.tier, 40, 400))
 
 
@@ -235,6 +262,9 @@ def replay(payload) -> bool:
     """True iff the property holds on the recorded case (class, state, injected magnitude, warm-up batch, batches): the
     accumulator after the batches equals injected + their statistics, judged by `measure` (the sweep's oracle)."""
     rp = payload.get("replay") or {}
+    if rp.get("kind") == "lowp-scores":
+        got, want = lowp_case(rp["average"], rp["dtype"], int(rp["n"]), int(rp["seed"]))
+        return got == want
     if rp.get("kind") == "scalar-weight":
         got, want = scalar_weight_case(rp["plan"], float(rp["weight"]), int(rp["n"]), int(rp["reps"]))
         return got == want
